@@ -243,7 +243,7 @@ def run(ctx):
         seen_sig.add(key)
         if c["type"] == "sign":
             ctx.violation({"kind": "oracle", "reason": c["oracle"], "signature": unknown,
-                           "sign": {k: c[k] for k in ("raw_uris", "ca_ext", "rules", "dc", "cluster", "shape", "expect")},
+                           "sign": {k: c[k] for k in ("raw_uris", "ca_ext", "rules", "dc", "cluster", "shape", "expect", "oracle")},
                            "request_uris": c["raw_uris"], "acl_rules": c["rules"],
                            "replay_cmd": "build/bin/ca -replay <this file>"})
         else:
